@@ -22,11 +22,13 @@ scripted base draws (`scripted_rng`), from outside:
   real random base draws (`random_runs`).
 
 Keys of the failing inputs (one per defect, stable across runs):
-  discrete-zero-draw-proposes-current    a normal draw of exactly 0.0 -> current integer (non-successive)
   bounded-eigenvector-corner-stall       start at a corner/edge: no proposal within the draw budget
-  solid-angle-pole-start                 start at theta = 0 (dec = -pi/2): 0/0 in _rotmat -> NaN azimuth
-  vmf-inverse-cdf-log-nonpositive        exp(k) - k*cdf/(2 pi norm) cancels to <= 0 -> NaN
-  vmf-inverse-cdf-arccos-out-of-range    log(..)/k rounds outside [-1, 1] -> NaN
+                                         (recorded finding on the current tree)
+ repaired in /repo (a51ea07, 65c339c, 4276c1d, ab7172e); the keys stay as regression detectors:
+  discrete-zero-draw-proposes-current    a normal draw of exactly 0.0 -> current integer (non-successive)
+  solid-angle-pole-start                 start at theta = 0 (dec = -pi/2): NaN azimuth out of _rotmat
+  vmf-inverse-cdf-log-nonpositive        the inverse cdf takes the logarithm of a value <= 0 -> NaN
+  vmf-inverse-cdf-arccos-out-of-range    the cosine of the polar angle outside [-1, 1] -> NaN
   log_normal_birth-zero-density          sigma/mu < 1.5e-8: std_log rounds to 0, own logpdf NaN
   <group>-out-of-bounds / -nan / -non-integer / -proposes-current / -no-refusal-outside /
   -refuses-inside / -raises, ang-out-of-range, solid-angle-out-of-range, <birth>-zero-density
@@ -76,10 +78,25 @@ GROUPS = {
 }
 GROUP_OF = {f: g for g, fs in GROUPS.items() for f in fs}
 
-SA_CALLS = ['sin', 'cos', 'sin', 'cos', 'exp', 'log', 'arccos', 'sin', 'cos', 'sin', 'cos',
+# the numpy calls of one IsotropicSolidAngle._jump, in call order; the 15th (gamma = arccos(mu[0]/rxy))
+# is made only when rxy > 0, i.e. not from a start at a pole
+SA_CALLS = ['sin', 'cos', 'sin', 'cos', 'expm1', 'log1p', 'clip', 'arccos', 'sin', 'cos', 'sin', 'cos',
             'arccos', 'sqrt', 'arccos', 'sin', 'sin', 'cos', 'cos', 'arctan2', 'arccos']
-SA_SITES = ['sinT0', 'cosP0', 'sinP0', 'cosT0', 'expK', 'logA', 'acosW', 'sinT1', 'cosP1', 'sinP1',
+SA_SITES = ['sinT0', 'cosP0', 'sinP0', 'cosT0', 'expm1', 'log1p', 'clipW', 'acosW', 'sinT1', 'cosP1', 'sinP1',
             'cosT1', 'acosMz', 'sqrtR', 'acosG', 'sinB', 'sinG', 'cosB', 'cosG', 'atan2', 'acosZ']
+SA_GAMMA = 14
+SA_CALLS_POLE = SA_CALLS[:SA_GAMMA] + SA_CALLS[SA_GAMMA + 1:]
+SA_SITES_POLE = SA_SITES[:SA_GAMMA] + SA_SITES[SA_GAMMA + 1:]
+
+
+def sa_site_names(nplog):
+    """Names of the recorded calls, if the sequence is one of the two the code can make."""
+    names = [c[0] for c in nplog]
+    if names == SA_CALLS[:len(names)]:
+        return SA_SITES[:len(names)]
+    if names == SA_CALLS_POLE[:len(names)]:
+        return SA_SITES_POLE[:len(names)]
+    return None
 
 
 # --------------------------------------------------------------------------
@@ -113,7 +130,7 @@ class ContainsLog:
 
 
 class _NumpyProxy:
-    LOGGED = ('sin', 'cos', 'arccos', 'arctan2', 'log', 'exp', 'sqrt')
+    LOGGED = ('sin', 'cos', 'arccos', 'arctan2', 'log', 'exp', 'sqrt', 'expm1', 'log1p', 'clip')
 
     def __init__(self, log):
         self._log = log
@@ -136,7 +153,7 @@ class _NumpyProxy:
 
 @contextlib.contextmanager
 def sa_numpy_log():
-    """Every sin/cos/arccos/arctan2/log/exp/sqrt call of epsie.proposals.solid_angle."""
+    """Every sin/cos/arccos/arctan2/log/exp/sqrt/expm1/log1p/clip call of epsie.proposals.solid_angle."""
     log = []
     saved = _sa_mod.numpy
     _sa_mod.numpy = _NumpyProxy(log)
@@ -396,9 +413,10 @@ def sa_ranges(spec):
 
 def sa_nan_site(nplog):
     """Diagnostic only: the first numpy call of the real `_jump` that returned a non-finite value."""
+    sites = sa_site_names(nplog[:len(SA_CALLS)])
     for i, (name, args, val) in enumerate(nplog):
         if val is None or not math.isfinite(val):
-            site = SA_SITES[i] if i < len(SA_SITES) and [c[0] for c in nplog[:len(SA_CALLS)]] == SA_CALLS[:len(nplog)] else name
+            site = sites[i] if sites is not None and i < len(sites) else name
             return site, args, val
     return None, None, None
 
@@ -498,7 +516,8 @@ def judge(spec, prop, fromx, res):
         if _isnan(a) or _isnan(t):
             site, args, val = sa_nan_site(res['np'])
             key = {'acosG': 'solid-angle-pole-start', 'sqrtR': 'solid-angle-pole-start',
-                   'logA': 'vmf-inverse-cdf-log-nonpositive',
+                   'log1p': 'vmf-inverse-cdf-log-nonpositive',
+                   'clipW': 'vmf-inverse-cdf-arccos-out-of-range',
                    'acosW': 'vmf-inverse-cdf-arccos-out-of-range',
                    'acosZ': 'solid-angle-output-arccos-out-of-range',
                    'acosMz': 'solid-angle-start-arccos-out-of-range'}.get(site, 'solid-angle-nan')
@@ -579,8 +598,8 @@ def protocol(spec, prop, fromx, res):
         return req, real, 'exact'
     if g == 'nd':
         draws = _outs(res)
-        req = 'nd succ=%s x=%s draws=%s' % (
-            ','.join(str(int(prop.successive[p])) for p in names), csv(x), csv(draws))
+        req = 'nd succ=%s x=%s fuel=%d draws=%s' % (
+            ','.join(str(int(prop.successive[p])) for p in names), csv(x), len(draws) + 1, csv(draws))
         return req, real, 'exact'
     if g == 'ang':
         draws = _outs(res)
@@ -601,17 +620,20 @@ def protocol(spec, prop, fromx, res):
         return req, real, 'be'
     if g == 'sa':
         npl = res['np']
-        if [c[0] for c in npl] != SA_CALLS:
-            return ('sa-sequence', {'kind': 'sequence', 'calls': [c[0] for c in npl]}, 'sa')
+        called = [c[0] for c in npl]
+        if called not in (SA_CALLS, SA_CALLS_POLE):
+            return ('sa-sequence', {'kind': 'sequence', 'calls': called}, 'sa')
         sites = []
         for name, args, val in npl:
             a2 = '-'
             if name == 'arctan2':
                 a2 = _xr(args[1])
             sites.append('%s:%s:%s' % (_xr(args[0]), a2, _xr(val)))
+        if called == SA_CALLS_POLE:
+            sites.insert(SA_GAMMA, 'none')
         us = [b[1] for r in res['script'].log for b in r.base]
-        req = 'sa radec=%d degs=%d kappa=%s norm=%s pi=%s d2r=%s r2d=%s x=%s u=%s sites=%s' % (
-            int(spec['radec']), int(spec['degs']), frac(float(prop.kappa)), frac(float(prop.norm)),
+        req = 'sa radec=%d degs=%d kappa=%s pi=%s d2r=%s r2d=%s x=%s u=%s sites=%s' % (
+            int(spec['radec']), int(spec['degs']), frac(float(prop.kappa)),
             frac(PI), frac(D2R), frac(R2D), csv(x), csv(us), ';'.join(sites))
         real['used'] = res['script'].used('u')
         return req, real, 'sa'
